@@ -54,6 +54,9 @@ def run(ctx):
         ctx.guard("assertions" + tag, c01.assertions, ctx, crate, crs, tag)
         ctx.guard("conflict-signal" + tag, c02.conflict_signal, ctx, crate, crs, tag)
         ctx.guard("unsolvable-at-root" + tag, c02.unsolvable_at_root, ctx, crate, crs, tag)
+        # id-indexed Mapping (watch lists, learnt_why, snapshot tables): growth covers the index about to be used
+        import c19
+        ctx.guard("grow-to-fit" + tag, c19.grow_to_fit, ctx, crate, crs, c19.env(), tag)
 
 
 # ------------------------------------------------------------------------------------------------
@@ -114,6 +117,18 @@ def guarded_index(ctx, crate, crs, tag):
                                 reach_wo = b.reachable([out_edge], avoid=resize)
                                 if i not in reach_wo or out_edge is None:
                                     guard = c
+                                    # the resize must cover the index: its new length is computed from the index
+                                    idx_locs = q.slice_locals(b, t["args"][1]) if len(t["args"]) > 1 else set()
+                                    for x in resize:
+                                        tt = b.blocks[x]["term"]
+                                        if out_edge is None or x not in b.reachable([out_edge]) or len(tt["args"]) < 2:
+                                            continue
+                                        rr2, _ = q.origin_thru(b, tt["args"][0])
+                                        if not any(q.mentions_field(rr2, a, fld) for a, f2 in TABLES if f2 == fld):
+                                            continue
+                                        covers = bool(idx_locs & q.slice_locals(b, tt["args"][1]))
+                                        ctx.ob(R, root_fn, "%s:resize-covers-index" % fld, covers, where_call(b, x),
+                                               "the table is grown to a length computed from the index about to be used")
             exc = INDEX_EXCEPTIONS.get((root_fn, fld))
             ok = guard is not None
             if not ok and exc:
@@ -287,6 +302,19 @@ def cached_implies_ok(ctx, crate, crs, tag):
                    "the cancellation poll (the only source of Err) is reached only after a cache miss" if ok else
                    "a cached answer can still fail with a cancellation error; Conflict::graph treats that as unreachable")
     ctx.floor(R, "cancellation polls in the cache", n, 2)
+    # ... and only in the two functions that actually fetch from the provider.  The derived caches (matching / sorted / per-
+    # requirement lists) can legitimately miss while a conflict is rendered (e.g. the list of a union requirement is never cached
+    # during solving); a poll there turns a cancellation signalled *after* solve() into a panic in Conflict::graph
+    fetchers = {CACHE + "get_or_cache_candidates", CACHE + "get_or_cache_dependencies"}
+    for b in crate.bodies:
+        if not b.key.startswith("resolvo::solver::cache::"):
+            continue
+        for i, t in b.calls():
+            f = t.get("f")
+            if f is not None and provider_call(f, "should_cancel_with_value"):
+                fn = q.enclosing_fn(crate, b)
+                ctx.ob(R, fn, "poll-only-where-the-provider-is-fetched", fn in fetchers, where_call(b, i),
+                       "cancellation is polled in the cache only right before get_candidates / get_dependencies")
     # the reliance: Conflict::graph unwraps cached lookups
     g = body_by_key(crate, "resolvo::conflict::Conflict::graph")
     if g is not None:
